@@ -2255,8 +2255,9 @@ as_expression() {
  */
 CPPType *CPPExpression::
 elevate_type(CPPType *t1, CPPType *t2) {
-  CPPSimpleType *st1 = t1->as_simple_type();
-  CPPSimpleType *st2 = t2->as_simple_type();
+  // The operands take part in the arithmetic as cv-unqualified values.
+  CPPSimpleType *st1 = t1->remove_cv()->as_simple_type();
+  CPPSimpleType *st2 = t2->remove_cv()->as_simple_type();
 
   if (st1 == nullptr || st2 == nullptr) {
     // Nothing we can do about this.  Who knows?
